@@ -38,7 +38,7 @@ func recase(t *rapid.T, s string) string {
 
 var stepGen = rapid.Custom(func(t *rapid.T) Step {
 	switch rapid.SampledFrom([]string{"helo", "helo", "mail", "mail", "mail", "rcpt", "rcpt", "rcpt", "rcpt", "data", "data", "data", "rset", "noop",
-		"misc", "misc", "auth", "junk", "junk", "badmail", "badrcpt", "dataarg", "bigdata", "quit"}).Draw(t, "what") {
+		"misc", "misc", "auth", "junk", "junk", "oddcase", "badmail", "badrcpt", "dataarg", "bigdata", "quit"}).Draw(t, "what") {
 	case "helo":
 		return Step{Kind: "helo", Line: recase(t, rapid.SampledFrom([]string{"HELO c.test", "EHLO c.test", "EHLO [1.2.3.4] extra", "HELO", "EHLO", "EHLO  "}).Draw(t, "helo"))}
 	case "mail":
@@ -66,6 +66,20 @@ var stepGen = rapid.Custom(func(t *rapid.T) Step {
 		return Step{Kind: "auth", Line: "AUTH LOGIN"}
 	case "quit":
 		return Step{Kind: "quit", Line: recase(t, "QUIT")}
+	case "oddcase":
+		// letters whose upper- or lower-case form has another length in UTF-8 (or is another
+		// letter altogether), alone or mixed into a verb, with or without an argument
+		units := []string{"ı", "ſ", "ⱥ", "ⱦ", "ι", "ɐ", "ȿ", "İ", "K", "ß", "ŉ", "ǰ", "ﬁ", "M", "a", "i", "L", "RCPT", "mail", "DATA"}
+		var line string
+		if rapid.Bool().Draw(t, "uniform") {
+			line = strings.Repeat(rapid.SampledFrom(units[:13]).Draw(t, "unit"), rapid.IntRange(2, 10).Draw(t, "times"))
+		} else {
+			line = strings.Join(rapid.SliceOfN(rapid.SampledFrom(units), 1, 8).Draw(t, "verb"), "")
+		}
+		if rapid.IntRange(0, 2).Draw(t, "witharg") > 0 {
+			line += " " + rapid.SampledFrom([]string{"x", "x", "ı", "FROM:<s@a.test>", "TO:<r1@a.test>", "ııı", ""}).Draw(t, "arg")
+		}
+		return Step{Kind: "junk", Line: line}
 	}
 	// junk
 	switch rapid.IntRange(0, 5).Draw(t, "junkkind") {
